@@ -66,7 +66,8 @@ var tokenCases = []string{"(/r)//child", "(/*)//child", "(/r)[1]//child", "(/r)/
 	"p:a", "p:*", "*:a", "child::p:a", "$n", "$n+1", "$x-y", "$n -1", "$n - 1", "1+2*3", "1*2+3", "(1+2)*3", "8 div 4 div 2", "7 mod 4 mod 2", "1 - 2 - 3", "1 < 2 < 3", "1 = 1 = 1", "1 != 2 = 3", "3 > 2 > 1", "1 or 0 and 0", "not(1) or 1",
 	"1 | 2", "//a | //b | //c", "(//a)[1]", "(//a)[last()]/..", "//a[1][1]", "//a[position() = last()]", "count(//a)", "count( //a )", "count(//a,//b)", "concat('a','b','c')", "string()", "string(  )", "f()", "p:f(1)", "last ( )",
 	"child :: a", "a / b", "a // b", "a [ 1 ]", "@ id", "( 1 )", "((1))", "(((//a)))", "1 +", "+1", "1 1", "a b", "//", "///a", "a//", "a/", "[1]", "a[]", "a[1", "a]", "(1", "1)", "count(", "count(1,)", "$", "$ n", "'abc", "\"abc", "!", "1 ! = 2", "a::b", "child::", "::a", "@", "@@a", "a@b",
-	"1.5", ".5", "5.", "1.5.2", "1..2", "1e3", "0x10", "a:b:c", "p:", ":a", "*:*", "p:*:a", "#obj", "#arr/*", "a#", "//#obj/a", "é", "//é/@é", "a b", "1 div", "div", "mod", "and", "or", "//div", "a div b", "div div div", "and and and", "_a", "//_a", "a_b"}
+	"1.5", ".5", "5.", "1.5.2", "1..2", "1e3", "0x10", "a:b:c", "p:", ":a", "*:*", "p:*:a", "#obj", "#arr/*", "a#", "//#obj/a", "é", "//é/@é", "a b", "1 div", "div", "mod", "and", "or", "//div", "a div b", "div div div", "and and and", "_a", "//_a", "a_b",
+	"child:self", "child:child", "self:child", "self:self", "text:text", "text:self", "child:text", "text:child", "child::child:self", "self::child:self", "child::text:self", "child:*", "text:*", "child:self | text:self", "child:self + 1", "child:a", "p:self", "p:child", "q:text", "child:div", "@child:self"}
 
 func famC08(rn *Runner) {
 	ndocs := rn.Scale(6, 80)
@@ -140,7 +141,11 @@ func famC08(rn *Runner) {
 			d = rn.NewDoc([]Event{{Kind: EvStart, B: "r"}, {Kind: EvStart, B: "a"}, {Kind: EvAttr, B: "id", C: "1"}, {Kind: EvText, A: "5"}, {Kind: EvEnd},
 				{Kind: EvStart, B: "a"}, {Kind: EvText, A: "7"}, {Kind: EvStart, B: "child"}, {Kind: EvText, A: "3"}, {Kind: EvEnd}, {Kind: EvEnd},
 				{Kind: EvStart, B: "b"}, {Kind: EvText, A: "2"}, {Kind: EvEnd}, {Kind: EvStart, B: "a-b"}, {Kind: EvText, A: "4"}, {Kind: EvEnd},
-				{Kind: EvStart, A: "urn:u1", B: "a"}, {Kind: EvText, A: "9"}, {Kind: EvEnd}, {Kind: EvStart, B: "text"}, {Kind: EvEnd}, {Kind: EvEnd}})
+				{Kind: EvStart, A: "urn:u1", B: "a"}, {Kind: EvText, A: "9"}, {Kind: EvEnd}, {Kind: EvStart, B: "text"}, {Kind: EvEnd},
+				// names made of reserved words, in the namespaces the prefixes child/self (urn:u1) and text (urn:u2) are bound to
+				{Kind: EvStart, A: "urn:u1", B: "self"}, {Kind: EvText, A: "11"}, {Kind: EvEnd}, {Kind: EvStart, A: "urn:u1", B: "child"}, {Kind: EvText, A: "12"}, {Kind: EvEnd},
+				{Kind: EvStart, A: "urn:u2", B: "text"}, {Kind: EvText, A: "13"}, {Kind: EvEnd}, {Kind: EvStart, A: "urn:u1", B: "text"}, {Kind: EvText, A: "14"}, {Kind: EvEnd},
+				{Kind: EvStart, A: "urn:u2", B: "self"}, {Kind: EvText, A: "15"}, {Kind: EvEnd}, {Kind: EvEnd}})
 			for _, t := range tokenCases {
 				check(t, "token-boundaries", nil, true)
 				for _, ctx := range []string{"/r/", "count(", "/r[", "2 + "} {
